@@ -28,7 +28,9 @@ def planted(g):
     name = g.word(2, 6, 0.2).encode()
     if r.random() < 0.25:
         # bytes that a careless message formatter would mangle: printf verbs, quotes, backslashes, tabs
-        name += r.choice([b'%', b'-50%', b'%d', b'%s', b'%!', b'"q"x', b'\\n', b'%v%'])
+        name += r.choice([b'%', b'-50%', b'%d', b'%s', b'%!', b'"q"x', b'\\n', b'%v%',
+                          b'\x1b[31m', b'\x00', b'\x0b', b'\x7f', '\u00a0x'.encode(), '\u3000x'.encode(), '\u200cx'.encode(), '\u200e'.encode(), '\ufeffx'.encode(), '\u0085x'.encode(),
+                          b'caf\xe9', b'\xff\xfe', b'\xc3', '\u0301'.encode()])
     if r.random() < 0.06:
         # a malformed line of several hundred bytes (ASCII or two-byte letters): it is quoted whole
         name = (g.word(4, 8, 0) + '/').encode() * r.randint(30, 60) + name if r.random() < 0.5 else ('\u0431\u0430\u043d\u0438\u0446\u0430_' * r.randint(20, 40)).encode() + name
